@@ -17,16 +17,21 @@ import itertools, json
 import common
 from common import Case, Failure
 import onetime_common as oc
+import onetime_sessions as OS
 
 PID = 'C13'
 LEAN_TARGETS = ['Nitime.Props.C13']
 RULE = ('every class using the one-time-property descriptor x 1-4 parameter settings (tiny seeded inputs); histories = empty, '
         'all ordered pairs of public results incl. repeats (quick), + all ordered triples of distinct public results and '
         'sampled full permutations (thorough); one case = one history on a freshly built object; distinct = distinct '
-        '(class, flags, history) line; non-trivial = history with at least two reads')
+        '(class, flags, history) line; non-trivial = history with at least two reads; PLUS process-level sessions (harness/onetime_sessions.py): '
+        'per setting 5-6 sessions of 2-6 live objects (bare ResetMixin / BaseAnalyzer, the class on two inputs, a user subclass with its own '
+        'one-time result, a sibling analyzer) constructed, read, reset, re-targeted in structured and random orders, each in its own fresh '
+        'process; two-/three-analyzer sessions over the classes taking `method` x {None, own, shared dict} x different sampling rates')
 ASSUMPTIONS = ['results are compared through canonical bytes (dtype, shape, buffer; TimeSeries: data + sampling interval + t0 + unit; dicts by sorted key)',
                'two fresh builds of the same setting give bitwise equal results (checked per result; results that are not reproducible or that raise on a fresh object are counted as unavailable, not compared)']
-TRUSTED_EXTRA = ['harness/translate_c13.py: the recognised getter fragment (documented in its header); effects it cannot see are caught only when the run-time observation exercises them',
+TRUSTED_EXTRA = ['harness/onetime_server.py: a forked child of a process that has only imported nitime stands for a fresh python process',
+                 'harness/translate_c13.py: the recognised getter fragment (documented in its header); effects it cannot see are caught only when the run-time observation exercises them',
                  'F (the numerical body of every getter) is uninterpreted in the model: the theorems speak about the memoisation / effect structure only',
                  'observation from outside: hashes of instance-dict entries, of the slots named in the table and of the input series; aliasing invisible to these hashes is not seen']
 
@@ -107,7 +112,7 @@ def impl_string(ctx, ctor, steps, variants=None):
         pw = [ctx.sid[s] for s in st.pw] + [900 + i for i, _ in enumerate(st.unknown)]
         # a getter that raises stores nothing and runs again on the next read; the model has no
         # exceptions (F is total), so the raising getter itself is not counted as having run
-        fired = [f for f in st.fired if not (st.err and f == st.g)]
+        fired = [f for f in st.fired if not (st.err and (f == st.g or ctx.gid[f] in ctx.raising))]
         recs.append('%d:f=%s:w=%s:c=%s:i=%d:s=%s' % (ctx.gid[st.g], il(ctx.gid[f] for f in fired), il(pw),
                                                       il(ctx.gid[c] for c in st.cl), 1 if st.inp else 0, same))
     return '|'.join(recs) if recs else '-'
@@ -206,6 +211,10 @@ def cases(rng, tier, seed):
                                   'steps': [{'g': s.g, 'h': s.value_hash, 'fired': s.fired, 'cl': s.cl, 'inp': s.inp,
                                              'was_cached': s.was_cached, 'same_obj': s.same_obj_as_cached, 'ret_stored': s.returned_is_stored} for s in steps]},
                             nontrivial=True))
+    # PROCESS-level sessions: several live objects of base / derived / user / sibling classes constructed, read, reset
+    # and re-targeted in every order, each in its own fresh process, every read compared with a fresh object in
+    # ANOTHER fresh process; two-analyzer sessions (method=None / own / one shared dict, different sampling rates)
+    out += OS.build_cases(PID, 'c13', seed, tier, rng)
     return out
 
 
@@ -280,7 +289,7 @@ def oracle(rng, tier, seed, focus, cases):
     n_hist = n_reads = 0
     for c in cases:
         m = c.meta
-        if not m:
+        if not m or 'session' in m:
             continue
         ctx = ctxs[(m['cls'], m['label'])]
         n_hist += 1
@@ -316,9 +325,29 @@ def oracle(rng, tier, seed, focus, cases):
             for key, what in res:
                 fails.append(Failure(key, what, {'cls': ctx.cls, 'label': ctx.label, 'mutate': g, 'key': key, 'seed': seed}))
     una = {'%s/%s' % (c.cls, c.label): dict(c.unavailable) for c in contexts(seed, tier) if c.unavailable}
+    # the sessions; and: the in-process "fresh analyzer read first" must itself be what a fresh PROCESS returns (the
+    # harness process has by now built and reset hundreds of objects of every class)
+    sf, sstats = OS.oracle_sessions(PID, seed, tier, cases)
+    fails += sf
+    refs = OS._STATE.get((PID, seed, tier)) or OS.Refs(seed, tier)
+    refs.need([(c.cls, c.label, 'p', 0) for c in contexts(seed, tier) if c.cls not in ('TimeSeries',)])
+    n_proc = 0
+    for ctx in contexts(seed, tier):
+        if ctx.cls == 'TimeSeries':
+            continue
+        ref = refs.get((ctx.cls, ctx.label, 'p', 0))['getters']
+        for g in ctx.table['getters']:
+            n_proc += 1
+            if ctx.unavailable.get(g) == 'not-reproducible' or ref.get(g) == 'nonrepro':
+                continue
+            if ctx.fresh.get(g) != ref.get(g):
+                key = '%s/%s/fresh-object-differs-from-fresh-process' % (ctx.cls, g)
+                fails.append(Failure(key, '%s(%s): `%s` read first on a newly built analyzer in the long-running harness process differs from the same '
+                                          'read in a fresh process (state outside the object: class attributes, module-level objects)' % (ctx.cls, ctx.label, g),
+                                     {'cls': ctx.cls, 'label': ctx.label, 'procfresh': g, 'key': key, 'seed': seed}))
     # keep one Failure per (key, case) but not thousands of copies of the same text
-    return fails, {'histories': n_hist, 'reads': n_reads, 'result_buffers_mutated': n_mut, 'distinct_failure_keys': sorted({f.key for f in fails}),
-                   'unavailable': una}
+    return fails, dict({'histories': n_hist, 'reads': n_reads, 'result_buffers_mutated': n_mut, 'distinct_failure_keys': sorted({f.key for f in fails}),
+                        'unavailable': una, 'fresh_object_vs_fresh_process': n_proc}, **sstats)
 
 
 # ------------------------------------------------------------------ results must not alias the input
@@ -415,6 +444,16 @@ def result_mutation(ctx, g):
 
 def replay(d):
     seed = d.get('seed', 0)
+    if d.get('session'):
+        return OS.replay_session(d)
+    if d.get('procfresh'):
+        # meaningful only inside a full run (needs the long-running process); re-run the sessions' reference instead
+        for ctx in contexts(seed, 'quick'):
+            if ctx.cls == d['cls'] and ctx.label == d['label']:
+                ref = OS.Refs(seed, 'quick').get((ctx.cls, ctx.label, 'p', 0))['getters']
+                if ctx.fresh_hash(d['procfresh']) != ref.get(d['procfresh']):
+                    return Failure(d['key'], 'in-process fresh read differs from fresh-process read', d)
+        return None
     if d.get('mutate'):
         for ctx in contexts(seed, 'quick'):
             if ctx.cls == d['cls'] and ctx.label == d['label']:
